@@ -454,6 +454,10 @@ class Parser:
             return True
         return False
 
+    def __char_at(self, text: bytes, pos: int) -> str:
+        """Return the character starting at byte offset pos (for messages)."""
+        return text[pos : pos + 4].decode("utf-8", "replace")[:1]
+
     def parse(self, text: bytes) -> bool:
         """The parser entry point.
 
@@ -488,7 +492,7 @@ class Parser:
                             msg = "{} found while {} expected near '{}'".format(
                                 ttype,
                                 "|".join(self.__expected),
-                                text.decode()[self.lexer.pos],
+                                self.__char_at(text, self.lexer.pos),
                             )
                         else:
                             msg = "%s found while %s expected at end of file" % (
@@ -500,8 +504,8 @@ class Parser:
 
                 if not self.__command(ttype, tvalue):
                     msg = "unexpected token '%s' found near '%s'" % (
-                        tvalue.decode(),
-                        text.decode()[self.lexer.pos],
+                        tvalue.decode("utf-8", "replace"),
+                        self.__char_at(text, self.lexer.pos),
                     )
                     raise ParseError(msg)
             if self.__expected_brackets:
@@ -518,7 +522,9 @@ class Parser:
                     % "|".join(self.__expected)
                 )
 
-        except (ParseError, CommandError) as e:
+        except (ParseError, CommandError, UnicodeDecodeError) as e:
+            if isinstance(e, UnicodeDecodeError):
+                e = ParseError("invalid UTF-8 data")
             self.error_pos = (
                 self.lexer.curlineno(),
                 self.lexer.curcolno(),
